@@ -936,6 +936,34 @@ def functions_return_results(ck, rule):
         raise AnalysisError("no wrapper-based function found")
 
 
+def kernels_forward_keywords(ck, rule):
+    """C15.R8: what a public function puts into the keyword record for its kernel (kwargs['offset'] = offset, ...) is consumed by the kernel: the kernel
+    has a parameter of that name, or hands its keyword record on to the NumPy routine it wraps."""
+    prog = ck.prog
+    n = 0
+    for f, w, call in public_functions(prog):
+        keys = set()
+        for pf in fpaths(prog, f):
+            for st in pf.stores:
+                if isinstance(st.target, ast.Subscript) and st.path == (f.kwarg or "kwargs") and const_str(st.sub) is not None:
+                    keys.add(const_str(st.sub))
+        if not keys:
+            continue
+        for k in kernel_candidates(prog, f, call):
+            kwn = k.kwarg
+            spread = bool(kwn) and any(kk.arg is None and dotted(kk.value) == kwn for c in calls_in(k.node) for kk in c.keywords)
+            for key in sorted(keys - {"n_frac"}):
+                n += 1
+                named = key in k.params and any(isinstance(x, ast.Name) and x.id == key and isinstance(x.ctx, ast.Load) for x in ast.walk(k.node))
+                reads = bool(kwn) and any(isinstance(x, ast.Subscript) and dotted(x.value) == kwn and const_str(x.slice) == key for x in ast.walk(k.node)) or \
+                    bool(kwn) and any(isinstance(x, ast.Call) and isinstance(x.func, ast.Attribute) and x.func.attr in ("get", "pop") and dotted(x.func.value) == kwn and x.args and const_str(x.args[0]) == key
+                                      for x in ast.walk(k.node))
+                ck.check(named or spread or reads, rule, k, "%s uses the %s argument its public function forwards" % (k.name, key), "%s=... is accepted by **%s and dropped" % (key, kwn), k.node,
+                         "%s reaches the value route but not the raw route: the two methods disagree" % key)
+    if n == 0:
+        raise AnalysisError("no forwarded kernel keywords found")
+
+
 def template_sizes(ck, rule):
     """C08.R3b: with out_like= (and no out) the template alone decides signedness and sizes: both wrappers call the constructor with
     signed / n_int / n_frac / n_word all None on that path (an operand-derived signedness would override the template's)."""
